@@ -49,7 +49,11 @@ def sample_event(req: dict, holder: str, via: str, seed: int) -> dict:
             warnings.simplefilter("ignore")
             if via == "function":
                 kind = req["kind"]
-                if kind == "uniform":
+                if kind == "zeros":
+                    nz_idx = np.sort(tt_sub2ind(X.shape, X.subs)) if X.nnz else np.array([], dtype=int)
+                    zs = np.asarray(S.zeros(X, nz_idx, req["z_req"], with_replacement=bool(req["repl"])))
+                    out = (zs, np.zeros(len(zs)), np.zeros(len(zs)))
+                elif kind == "uniform":
                     out = S.uniform(X, req["nz_req"])
                 else:
                     nz_idx = np.sort(tt_sub2ind(X.shape, X.subs)) if X.nnz else np.array([], dtype=int)
@@ -91,7 +95,7 @@ def sample_event(req: dict, holder: str, via: str, seed: int) -> dict:
 def replay_sampler(b: dict) -> dict:
     evs = []
     req = b["req"]
-    holders = ["sparse"] if req["kind"] != "uniform" else ["dense", "sparse"]
+    holders = ["sparse"] if req["kind"] != "uniform" else ["dense", "sparse"]      # (the zero samplers take sparse data)
     for h in holders:
         for via in b["vias"]:
             if via == "GCPSampler.gradient" and req["kind"] == "uniform" and h == "sparse":
@@ -538,6 +542,23 @@ def main(tier: str) -> int:
                 extra.append(q)
     reqs = reqs + extra
     sb = [{"req": q, "vias": ["function", "GCPSampler.function", "GCPSampler.gradient"], "seed": sd + (i % 7)} for i, q in enumerate(reqs)]
+    # the bare zero sampler (the building block of the stratified samplers), with and without replacement, on the same
+    # data patterns and on one larger tensor where many draws hit stored entries or repeat
+    seen_z = set()
+    for q in reqs:
+        if q["kind"] == "stratified" and q["z_req"] > 0:
+            for repl in (False, True):
+                z = {"kind": "zeros", "shape": q["shape"], "data": q["data"], "nz_req": 0, "z_req": q["z_req"], "repl": repl}
+                k = json.dumps(z, sort_keys=True)
+                if k not in seen_z:
+                    seen_z.add(k)
+                    sb.append({"req": z, "vias": ["function"], "seed": sd + (len(sb) % 7)})
+    for j, pat in enumerate(([1, 0, 0, 1, 0, 1, 1, 0, 0, 0, 1, 0], [1, 1, 0, 1, 1, 1, 0, 1, 1, 0, 1, 1], [0] * 11 + [1])):
+        for zr in (2, 4, 5):
+            for repl in (False, True):
+                for rep in range(3):
+                    sb.append({"req": {"kind": "zeros", "shape": [3, 4], "data": [p * (i + 2) for i, p in enumerate(pat)], "nz_req": 0,
+                                       "z_req": zr, "repl": repl}, "vias": ["function"], "seed": sd + j + 3 * rep})
     out.notes["sampling_requests"] = len(sb)
     core.pipeline(out, "c13", sb, "Sampler_Trace", lock_mode="superset", chunk=400, site_of=site_of, tags_of=tags_of)
     hs = histories(tier, sd)
